@@ -620,6 +620,13 @@ class P:
         if t == 'unsafe':
             self.eat('unsafe')
             return ('block', self.block())
+        if t in ('continue', 'break'):
+            self.eat()
+            return ('block', [(t,)])
+        if t == 'return':
+            self.eat()
+            e = None if (self.at(',') or self.at(';') or self.at('}')) else self.expr()
+            return ('block', [('return', e)])
         if k == 'id':
             if t == 'matches!':
                 self.eat()
@@ -673,7 +680,9 @@ LEAN_TY = {'usize': 'Nat', 'bool': 'Bool', 'FixedBitSet': 'Rs.BitSet', 'Option<W
            'PollVec': 'Rs.PVec PS.PollState', 'BTreeSet<usize>': 'Rs.BTree', 'WakerVec': 'WakerVec',
            'SmallVec<[usize;10]>': 'List Nat',
            'Poll<Option<(Key,Output)>>': 'Rs.Poll (Option (Nat × Nat))', 'Poll<Option<(Key,Item)>>': 'Rs.Poll (Option (Nat × Nat))',
-           'Context': 'Nat'}
+           'Context': 'Nat',
+           'Vec<S>': 'Rs.Kids', 'Vec<Fut>': 'Rs.Kids', 'Indexer': 'Idx.Indexer',
+           'Poll<Option<Item>>': 'Rs.Poll (Option Nat)', 'Poll<Output>': 'Rs.Poll Nat'}
 
 def lean_ty(ty, structs):
     if ty in LEAN_TY:
@@ -705,6 +714,7 @@ class Ctx:
         self.placealias = {}       # local name -> place expression it is a `&mut` of
         self.muts = []             # plain mutable locals (`let mut x = value`)
         self.loop = None           # inside a `for`: the loop-carried variables
+        self.loop_ret = False      # ... and whether the body contains a `return`
         self.uses_env = False
         self.after_block = []
     def fresh(self):
@@ -807,6 +817,8 @@ class Module:
                 t = self.ty(e[1], cx)
                 if e[2] in ('unwrap', 'expect') and t and t.startswith('Option '):
                     return t[len('Option '):]
+                if e[2] in ('unwrap', 'expect') and t == 'Option Member':
+                    return 'Member'
                 if e[2] in ('unwrap', 'expect') and t and t.startswith('SHARED:'):
                     return t[len('SHARED:'):]
                 return t
@@ -819,6 +831,9 @@ class Module:
             if rt == 'Rs.BTree' and e[2] in ('contains', 'insert', 'remove'): return 'Bool'
             if rt == 'WakerVec' and e[2] == 'readiness': return 'StdVec.ReadinessVec'
             if rt == 'WakerVec' and e[2] == 'get': return 'Option Wk'
+            if rt == 'Rs.Kids' and e[2] == 'len': return 'Nat'
+            if rt == 'Rs.Kids' and e[2] == 'is_empty': return 'Bool'
+            if rt == 'Idx.Indexer' and e[2] == 'iter': return 'Idx.IndexIter'
             if rt == 'Nat' and e[2] == 'waker': return 'Nat'
             if rt == 'List Nat' and e[2] == 'is_empty': return 'Bool'
             if rt == 'Member' and e[2] == 'poll': return 'Rs.Poll Nat'
@@ -834,6 +849,8 @@ class Module:
             return ('Option ' + t) if t else None
         if k == 'call' and e[1] == ['Key']:
             return 'Nat'
+        if k == 'call' and e[1][-1] in ('get_pin_mut_from_vec', 'get_pin_mut') and len(e[2]) == 2 and self.ty(e[2][0], cx) == 'Rs.Kids':
+            return 'Option Member'
         if k == 'call' and e[1] == ['Poll', 'Ready']:
             t = self.ty(e[2][0], cx)
             return ('Rs.Poll (' + t + ')') if t else None
@@ -977,6 +994,17 @@ class Module:
             if segs == ['Poll', 'Ready']:
                 p, t = self.E(args[0], cx)
                 return p, f"(Rs.Poll.ready {atom(t)})"
+            if segs[-1] in ('get_pin_mut_from_vec', 'get_pin_mut') and len(args) == 2 and self.ty(args[0], cx) == 'Rs.Kids':
+                pk, tk = self.E(args[0], cx)
+                pi, ti = self.E(args[1], cx)
+                return pk + pi, f"(Rs.Kids.get {atom(tk)} {atom(ti)})"
+            if segs == ['Indexer', 'new']:
+                p, t = self.E(args[0], cx)
+                v = cx.fresh()
+                return p + [f"let {v} ← Idx.Indexer.new {atom(t)}"], v
+            if segs == ['PollVec', 'new_pending']:
+                p, t = self.E(args[0], cx)
+                return p, f"(Rs.PVec.replicate {atom(t)} PS.PollState.pending)"
             if segs == ['Slab', 'with_capacity'] or segs == ['Slab', 'new']:
                 return [], "Rs.Slab.empty"
             if segs == ['BTreeSet', 'new']:
@@ -1126,6 +1154,12 @@ class Module:
             return pr + pa, f"(WakerVec.get {atom(tr)} {atom(ta)})"
         if rt == 'Member' and name in ('poll', 'poll_next'):
             return self.child_poll(e, cx)
+        if rt == 'Rs.Kids' and name == 'len':
+            pr, tr = self.E(recv, cx)
+            return pr, f"{tr}.len"
+        if rt == 'Rs.Kids' and name == 'is_empty':
+            pr, tr = self.E(recv, cx)
+            return pr, f"({tr}.len == 0)"
         if rt == 'Rs.Slab' and name == 'len':
             pr, tr = self.E(recv, cx)
             return pr, f"{tr}.len"
@@ -1193,16 +1227,21 @@ class Module:
         pm, tm = self.E(recv, cx)
         pw, tw = self.E(args[0], cx)
         wf = [f for f, t in self.structs.get(cx.struct, []) if t == 'WakerVec']
-        if len(wf) != 1:
-            raise Unsupported("child poll outside a struct with one WakerVec")
         cx.uses_env = True
         cx.mutations += 1
-        place = ('field', ('field', ('path', ['self']), wf[0]), 'readiness')
-        pr, tr = self.E(place, cx)
-        nr, nres = cx.fresh(), cx.fresh()
         fn = 'Rs.pollFut' if name == 'poll' else 'Rs.pollStream'
-        lines = pm + pw + pr + [f"let ({nr}, env__, {nres}) ← {fn} (fun i r => StdVec.InlineWakerVec.wake ⟨i⟩ r) {atom(tr)} env__ {atom(tm)} {atom(tw)}"]
-        lines += self.assign_place(place, nr, cx)
+        wk = tw if self.ty(args[0], cx) == 'Wk' else f"(Wk.par {atom(tw)})"      # the caller's own context is handed on
+        nr, nres = cx.fresh(), cx.fresh()
+        if len(wf) == 1:
+            place = ('field', ('field', ('path', ['self']), wf[0]), 'readiness')
+            pr, tr = self.E(place, cx)
+            lines = pm + pw + pr + [f"let ({nr}, env__, {nres}) ← {fn} (fun i r => StdVec.InlineWakerVec.wake ⟨i⟩ r) {atom(tr)} env__ {atom(tm)} {atom(wk)}"]
+            lines += self.assign_place(place, nr, cx)
+            return lines, nres
+        if wf:
+            raise Unsupported("child poll in a struct with several waker tables")
+        # no waker table: there is no shared readiness set for a child's wake-ups to act on
+        lines = pm + pw + [f"let ({nr}, env__, {nres}) ← {fn} (fun _ (r : Unit) => some (r, [], ())) () env__ {atom(tm)} {atom(wk)}"]
         return lines, nres
 
     # ---------------------------------------------------------------- places / mutation
@@ -1376,6 +1415,17 @@ class Module:
             return [pad + self.ret('()', cx)]
         s, rest = stmts[0], stmts[1:]
         k = s[0]
+        if k == 'scope_end':
+            if not rest:
+                return [pad + self.ret('()', cx)]
+            return self.S(rest, cx, ind)
+        if k == 'return' and cx.loop is not None:
+            if not cx.loop_ret:
+                raise Unsupported("return inside a loop")
+            if s[1] is None:
+                return [pad + f"pure ({cx.loop}, Rs.Ctl.ret ())"]
+            p, t = self.tail_value(s[1], cx)
+            return [pad + l for l in p] + [pad + f"pure ({cx.loop}, Rs.Ctl.ret {atom(t)})"]
         if k == 'return':
             if s[1] is None:
                 return [pad + self.ret('()', cx)]
@@ -1384,6 +1434,8 @@ class Module:
         if k in ('break', 'continue'):
             if cx.loop is None:
                 raise Unsupported(f"{k} outside a loop")
+            if cx.loop_ret:
+                return [pad + f"pure ({cx.loop}, Rs.Ctl.{'brk' if k == 'break' else 'next'})"]
             return [pad + f"pure ({cx.loop}, {'true' if k == 'break' else 'false'})"]
         if k == 'for':
             return self.for_stmt(s, rest, cx, ind)
@@ -1401,9 +1453,14 @@ class Module:
                 cx.placealias[name] = r
                 return self.S(rest, cx, ind)
             if name in cx.types or name == 'self':
-                # shadowing is harmless when what follows the enclosing block never mentions the name again
-                if json.dumps(name) in json.dumps(cx.after_block):
-                    raise Unsupported(f"shadowing of {name}")
+                if name == 'self':
+                    raise Unsupported("shadowing of self")
+                # a new binding of an existing name: rename it for the rest of ITS block (up to the scope marker)
+                new = f"{name}_{cx.fresh()}"
+                cut = next((i for i, st_ in enumerate(rest) if st_ == ('scope_end',)), len(rest))
+                rest = subst_name(rest[:cut], name, new) + rest[cut:]
+                s = (s[0], new, s[2], s[3], s[4])
+                name = new
             if s[2] and name not in cx.muts:
                 cx.muts.append(name)
             # let x = <shared>.lock().unwrap();
@@ -1421,7 +1478,7 @@ class Module:
             cx.types[name] = self.ty(e, cx) or (lean_ty(s[3], self.structs) if s[3] else '?')
             return [pad + l for l in lines] + [pad + f"let {name} := {v}"] + self.S(rest, cx, ind)
         e = s[1]
-        is_last = (k == 'tail' and not rest)
+        is_last = (k == 'tail' and not [x for x in rest if x != ('scope_end',)])
         if e[0] == 'assign' and self.resolve(e[1], cx)[0] != 'index' and e[1][0] == 'path' and len(e[1][1]) == 1 \
                 and e[1][1][0] in cx.placealias:
             # `readiness = this.wakers.readiness();` re-acquires the same place: nothing to do
@@ -1444,10 +1501,10 @@ class Module:
             saved = (dict(cx.types), dict(cx.alias), cx.tmp, dict(cx.placealias), list(cx.muts), cx.after_block)
             cx.after_block = rest
             out.append(pad + f"if {tc} then")
-            out += self.S(a + rest, cx, ind + 1)
+            out += self.S(a + [('scope_end',)] + rest, cx, ind + 1)
             cx.types, cx.alias, cx.placealias, cx.muts = dict(saved[0]), dict(saved[1]), dict(saved[3]), list(saved[4])
             out.append(pad + "else")
-            out += self.S(b + rest, cx, ind + 1)
+            out += self.S(b + [('scope_end',)] + rest, cx, ind + 1)
             cx.types, cx.alias, cx.placealias, cx.muts, cx.after_block = saved[0], saved[1], saved[3], saved[4], saved[5]
             return out
         if e[0] == 'match':
@@ -1456,7 +1513,7 @@ class Module:
             body = list(e[1])
             if rest:
                 body = detail(body)
-            return self.S(body + rest, cx, ind)
+            return self.S(body + [('scope_end',)] + rest, cx, ind)
         if is_last and cx.ret != 'Unit' and e[0] not in ('assign', 'opassign'):
             p, t = self.tail_value(e, cx)
             return [pad + l for l in p] + [pad + self.ret(t, cx)]
@@ -1489,10 +1546,21 @@ class Module:
         var = pat[1]
         # the iterated collection: <BTreeSet>.iter().cloned() / <list>.iter()
         src = self.resolve(it, cx)
-        while src[0] == 'mcall' and src[2] in ('iter', 'cloned', 'copied', 'into_iter') and not src[3]:
+        while src[0] == 'mcall' and src[2] in ('iter', 'cloned', 'copied', 'into_iter') and not src[3] \
+                and self.ty(src[1], cx) != 'Idx.Indexer':
             src = self.resolve(src[1], cx)
         st = self.ty(src, cx)
-        ps, ts = self.E(src, cx)
+        if st == 'Idx.IndexIter' and src[0] == 'mcall' and src[2] == 'iter':
+            # `for i in <indexer>.iter()`: the iterator is drained up front (the body cannot touch it)
+            pf, tf = self.E(src[1], cx)
+            fuel = cx.fresh()
+            ps0 = pf + [f"let {fuel} := Idx.Indexer.fuel {atom(tf)}"]
+            pi, ti = self.mcall_stmt(src, cx, True)
+            v = cx.fresh()
+            ps, ts = ps0 + pi + [f"let {v} ← Idx.IndexIter.collect {fuel} {atom(ti)}"], v
+            st = 'List Nat'
+        else:
+            ps, ts = self.E(src, cx)
         if st == 'Rs.BTree':
             lst = f"{ts}.elems"
         elif st == 'List Nat':
@@ -1502,17 +1570,28 @@ class Module:
         carry = ['self'] + (['env__'] if cx.has_env else []) + [m for m in cx.muts if m in cx.types]
         tup = "(" + ", ".join(carry) + ")" if len(carry) > 1 else carry[0]
         saved = (dict(cx.types), dict(cx.alias), dict(cx.placealias), list(cx.muts), cx.after_block, cx.ret)
-        cx.loop = tup
+        has_ret = '"return"' in json.dumps(body)
+        cx.loop, cx.loop_ret = tup, has_ret
         cx.types[var] = 'Nat'
         cx.after_block = []
         body_lines = self.S(detail(list(body)), cx, ind + 2)
-        cx.loop = None
+        cx.loop, cx.loop_ret = None, False
         cx.types, cx.alias, cx.placealias, cx.muts, cx.after_block, cx.ret = saved
         out = [pad + l for l in ps]
-        out.append(pad + f"let {tup} ← Rs.forBreak {atom(lst)} {tup} (fun {tup} {var} => do")
+        if not has_ret:
+            out.append(pad + f"let {tup} ← Rs.forBreak {atom(lst)} {tup} (fun {tup} {var} => do")
+            out += body_lines
+            out.append(pad + "  )")
+            return out + self.S(rest, cx, ind)
+        # the body may `return`: the loop answers the returned value, if any
+        out.append(pad + f"let ({tup}, r__) ← Rs.forCtl {atom(lst)} {tup} (fun {tup} {var} => do")
         out += body_lines
         out.append(pad + "  )")
-        return out + self.S(rest, cx, ind)
+        out.append(pad + "match r__ with")
+        out.append(pad + "| some v__ =>")
+        out.append(pad + "    " + self.ret('v__', cx))
+        out.append(pad + "| none =>")
+        return out + self.S(rest, cx, ind + 2)
 
     def tail_value(self, e, cx):
         if e[0] == 'mcall':
@@ -1540,7 +1619,7 @@ class Module:
                 cx.placealias, cx.muts, cx.after_block = dict(saved2[0]), list(saved2[1]), rest
                 lp = self.pat_any(pat, cx)
                 out.append(pad + f"| {lp} =>")
-                out += self.S(body + rest, cx, ind + 2)
+                out += self.S(body + [('scope_end',)] + rest, cx, ind + 2)
             cx.types, cx.alias = saved
             cx.placealias, cx.muts, cx.after_block = saved2
             return out
@@ -1663,8 +1742,8 @@ class Module:
     def ret(self, val, cx):
         if cx.loop is not None:
             if val != '()':
-                raise Unsupported("return inside a loop")
-            return f"pure ({cx.loop}, false)"
+                raise Unsupported("value at the end of a loop body")
+            return f"pure ({cx.loop}, {'Rs.Ctl.next' if cx.loop_ret else 'false'})"
         parts = []
         if cx.selfkind == 'mut':
             parts.append('self')
@@ -1761,7 +1840,7 @@ class Module:
         cx.emits = 'wake_by_ref' in json.dumps(body)
         # does it poll children?  then the environment (scripts, handed-out wakers, event trace) is threaded through
         cx.has_env = bool(re.search(r'"mcall", .{0,400}?"poll(_next)?"', json.dumps(body))) and \
-            any(t == 'WakerVec' for _, t in self.structs.get(sname, []))
+            any(t in ('WakerVec', 'Rs.Kids', 'Rs.Slab') for _, t in self.structs.get(sname, []))
         if cx.has_env:
             binders += " (env__ : World)"
         lines = self.S(body, cx, 1)
@@ -1782,6 +1861,16 @@ class Module:
         text += lines
         text.append("")
         self.out.append(('FN', self.fname(sname, name), text))
+
+def subst_name(ast, old, new):
+    """rename the local `old` to `new` in a piece of syntax"""
+    if isinstance(ast, tuple):
+        if ast == ('path', [old]):
+            return ('path', [new])
+        return tuple(subst_name(x, old, new) for x in ast)
+    if isinstance(ast, list):
+        return [subst_name(x, old, new) for x in ast]
+    return ast
 
 def detail(stmts):
     """a block that is followed by more statements: its tail expression is an ordinary statement"""
@@ -1835,12 +1924,18 @@ UNITS = [
     ('PS',     [('src/utils/poll_state/poll_state.rs', None)]),
     ('GrpF',   [('src/future/future_group.rs', ['FutureGroup'])]),
     ('GrpS',   [('src/stream/stream_group.rs', ['StreamGroup'])]),
+    ('MergeV', [('src/stream/merge/vec.rs', ['Merge'])]),
+    ('RaceV',  [('src/future/race/vec.rs', ['Race'])]),
 ]
 SKIP_FNS = {('InlineWakerArray', 'new'), ('InlineWakerVec', 'new')}
 
-GROUPS = {'Std': ['StdArr', 'StdVec'], 'Dir': ['DirArr', 'DirVec'], 'Idx': ['Idx'], 'PS': ['PS'], 'Grp': ['GrpF', 'GrpS']}
-GROUP_IMPORTS = {'Grp': ['FcGen.KSrcStd', 'FcGen.KSrcPS', 'Fc.RustEnv']}
-GROUP_DEPS = {'Grp': ['Std', 'PS']}
+GROUPS = {'Std': ['StdArr', 'StdVec'], 'Dir': ['DirArr', 'DirVec'], 'Idx': ['Idx'], 'PS': ['PS'], 'Grp': ['GrpF', 'GrpS'],
+          'Fam': ['MergeV', 'RaceV']}
+GROUP_IMPORTS = {'Std': ['Fc.Kernel'], 'Grp': ['FcGen.KSrcStd', 'FcGen.KSrcPS', 'Fc.RustEnv'],
+                 'Fam': ['FcGen.KSrcStd', 'FcGen.KSrcPS', 'FcGen.KSrcIdx', 'Fc.RustEnv']}
+GROUP_DEPS = {'Grp': ['Std', 'PS'], 'Fam': ['Std', 'PS', 'Idx'], 'GrpPoll': ['Grp'], 'RaceV': ['Fam']}
+# groups of tie theorems that have no generated file of their own (they talk about functions of another group's file)
+VIRTUAL_GROUPS = {'GrpPoll': ['GrpF', 'GrpS'], 'RaceV': ['RaceV']}
 # src/utils/wakers/vec/waker_vec.rs (std) is Arc / closure glue around the readiness set: modelled by hand here —
 # a table of `len` sub-wakers next to the shared set; `resize` resizes both
 WAKERVEC_PRELUDE = '''/-- hand-written model of `WakerVec` (utils/wakers/vec/waker_vec.rs, std): `nwakers` sub-wakers + the shared set -/
@@ -1860,7 +1955,8 @@ def WakerVec.resize (self : WakerVec) (len : Nat) : Option (WakerVec × Unit) :=
 def WakerVec.get (self : WakerVec) (index : Nat) : Option Wk :=
   if index < self.nwakers then some (.sub index) else none
 '''
-GROUP_PRELUDE = {'Grp': WAKERVEC_PRELUDE}
+GROUP_PRELUDE = {}
+GROUP_POSTLUDE = {'Std': WAKERVEC_PRELUDE}
 # the functions each group of tie theorems (lean/FcProps/KTie<group>.lean) talks about
 REQUIRED = {
     'Std': ['StdArr.ReadinessArray.' + f for f in ('new', 'set_ready', 'clear_ready', 'set_all_ready', 'any_ready',
@@ -1875,6 +1971,9 @@ REQUIRED = {
                                                   'parent_waker', 'set_waker', 'resize')],
     'Idx': ['Idx.Indexer.new', 'Idx.Indexer.iter', 'Idx.IndexIter.next'],
     'PS': ['PS.PollState.' + f for f in ('is_none', 'is_pending', 'is_ready', 'set_none', 'set_pending', 'set_ready')],
+    'Fam': ['MergeV.Merge.poll_next', 'RaceV.Race.poll'],
+    'GrpPoll': ['GrpF.FutureGroup.poll_next_inner', 'GrpS.StreamGroup.poll_next_inner'],
+    'RaceV': ['RaceV.Race.poll'],
     'Grp': ['GrpF.FutureGroup.' + f for f in ('with_capacity', 'len', 'capacity', 'is_empty', 'remove', 'contains_key', 'reserve', 'insert')]
            + ['GrpS.StreamGroup.' + f for f in ('with_capacity', 'len', 'capacity', 'is_empty', 'remove', 'contains_key', 'reserve', 'insert')],
 }
@@ -1935,9 +2034,12 @@ def translate_unit(repo, ns, files, report, ext=None):
             mod.out.append(f"def {sname}.extraFields : List String := {json.dumps(r['extra'] if r else [])}")
             mod.out.append("")
     for sname in list(mod.structs):
-        if sname in ('FutureGroup', 'StreamGroup'):
+        if sname in ('FutureGroup', 'StreamGroup', 'Merge', 'Race') and sname not in getattr(mod, 'ext_names', ()):
             tags = {'Rs.Slab': 'roleSlab', 'WakerVec': 'roleWakers', 'Rs.PVec PS.PollState': 'roleStates',
                     'Rs.BTree': 'roleKeys', 'Nat': 'roleCapacity', 'List Nat': 'roleQueue'}
+            if sname in ('Merge', 'Race'):
+                tags = {'Rs.Kids': 'roleKids', 'Idx.Indexer': 'roleIndexer', 'WakerVec': 'roleWakers',
+                        'Rs.PVec PS.PollState': 'roleStates', 'Nat': 'roleCount', 'Bool': 'roleDone'}
             fl = mod.structs[sname]
             roles = {}
             mod.out.append(f"/-- roles of the fields of `{sname}` (each is the only field of its type) -/")
@@ -1953,6 +2055,7 @@ def translate_unit(repo, ns, files, report, ext=None):
         if s_ not in getattr(mod, 'ext_names', ()):
             report['translated'].append(f"{ns}.{s_}.{n}")
     report.setdefault('_mods', {})[ns] = mod
+    report.setdefault('_parsed', {})[ns] = parsed_all
     for item, why in mod.failed:
         report['failed'].append((f"{ns}.{item.replace('::', '.')}", why))
     return order_fns(mod.out)
@@ -1993,8 +2096,7 @@ def translate(repo):
                "", "set_option linter.unusedVariables false", "",
                "namespace Fc.Src", "open Fc", ""]
         ext = None
-        if g == 'Grp':
-            out += GROUP_PRELUDE[g].splitlines() + [""]
+        if g in ('Grp', 'Fam'):
             mods = report.get('_mods', {})
             ext = {'structs': {}, 'enums': {}, 'fns': {}}
             sv, ps = mods.get('StdVec'), mods.get('PS')
@@ -2011,10 +2113,50 @@ def translate(repo):
             ext['structs']['WakerVec'] = [('nwakers', 'Nat'), ('readiness', 'StdVec.ReadinessVec')]
             ext['fns'][('WakerVec', 'new')] = dict(selfkind=None, params=[('len', 'usize')], ret='WakerVec', consts=[])
             ext['fns'][('WakerVec', 'resize')] = dict(selfkind='mut', params=[('len', 'usize')], ret='Unit', consts=[])
+            ix = mods.get('Idx')
+            if ix and 'Indexer' in ix.structs:
+                ext['structs']['Idx.Indexer'] = ix.structs['Indexer']
+                ext['structs']['Idx.IndexIter'] = ix.structs.get('IndexIter', [])
+                for (s_, n), sig in ix.fns.items():
+                    sig2 = dict(sig)
+                    if sig2.get('ret') in ('Indexer', 'IndexIter'):
+                        sig2['ret'] = 'Idx.' + sig2['ret']
+                    ext['fns'][('Idx.' + s_, n)] = sig2
         for ns in nss:
             out += translate_unit(repo, ns, units[ns], report, ext)
+        if g == 'Idx':
+            ix = report.get('_mods', {}).get('Idx')
+            nats = [f for f, t in (ix.structs.get('Indexer', []) if ix else []) if t == 'Nat']
+            if ix and len(nats) == 2:
+                off = None
+                for it_ in report.get('_parsed', {}).get('Idx', []):
+                    if it_[0] == 'impl' and it_[1] == 'Indexer':
+                        for f_ in it_[4]:
+                            if f_[0] == 'fn' and f_[1] == 'new':
+                                m_ = re.search(r'\["(\w+)", \["num", 0\]\]', json.dumps(f_[5]))
+                                if m_ and m_.group(1) in nats:
+                                    off = m_.group(1)
+                if off:
+                    mx = [n_ for n_ in nats if n_ != off][0]
+                    out += ["/-- roles of the fields of `Indexer`: the rotating offset (`new` starts it at 0) and the maximum -/",
+                            f"abbrev Idx.Indexer.roleOffset (ix : Idx.Indexer) : Nat := ix.{off}",
+                            f"abbrev Idx.Indexer.roleMax (ix : Idx.Indexer) : Nat := ix.{mx}", ""]
+            if nats and ix and ('IndexIter', 'next') in ix.fns:
+                out += ["/-- an upper bound on the number of values an iterator made by this `Indexer` yields (+1) -/",
+                        "def Idx.Indexer.fuel (ix : Idx.Indexer) : Nat := " + " + ".join(f"ix.{f}" for f in nats) + " + 1", "",
+                        "/-- the values an `IndexIter` still yields, in order: what a `for` loop over it sees -/",
+                        "def Idx.IndexIter.collect : Nat → Idx.IndexIter → Option (List Nat)",
+                        "  | 0, _ => some []",
+                        "  | fuel + 1, it =>",
+                        "    match Idx.IndexIter.next it with",
+                        "    | none => none",
+                        "    | some (_, none) => some []",
+                        "    | some (it', some v) => (Idx.IndexIter.collect fuel it').map (v :: ·)", ""]
+        out += GROUP_POSTLUDE.get(g, "").splitlines() + ([""] if g in GROUP_POSTLUDE else [])
         out.append("end Fc.Src")
         texts[g] = "\n".join(out) + "\n"
+    for g in list(GROUPS) + list(VIRTUAL_GROUPS):
+        nss = GROUPS.get(g) or VIRTUAL_GROUPS[g]
         missing = [f for f in REQUIRED[g] if f not in report['translated']]
         why = [f"{i}: {w}" for i, w in report['failed'] if i.split(':')[0].split('.')[0] in nss]
         deps = [d for d in GROUP_DEPS.get(g, []) if not report['groups'].get(d, {}).get('available')]
@@ -2039,6 +2181,7 @@ def main():
         if old != text:
             open(outp, 'w').write(text)
     report.pop('_mods', None)
+    report.pop('_parsed', None)
     json.dump(report, open(os.path.join(outd, 'KSrc.report.json'), 'w'), indent=1)
     print(f"rs2lean: {len(report['translated'])} functions translated, {len(report['failed'])} not translated; "
           + ", ".join(f"{g}: {'ok' if v['available'] else 'UNAVAILABLE'}" for g, v in report['groups'].items()))
